@@ -2,10 +2,10 @@ SPECIFICATION Spec
 CONSTANTS Thr = {t1,t2,t3}
  Calls = 2
  ProcScope = "thread"
- DtorLocked = TRUE
- UsesPlanner = TRUE
+ DtorLocked = FALSE
+ UsesPlanner = FALSE
  TableScope = "proc"
- TempScope = "call"
+ TempScope = "static"
  DtorFrees = "all"
 INVARIANT Deterministic
 INVARIANT TablesAlive
